@@ -18,6 +18,10 @@ type c2Recv struct {
 	got  []string
 	pipe []uint32 // pipe id each message arrived on
 	done *Call
+	// keep, when set, selects messages the application keeps instead of
+	// releasing them (to use the same Message object again later)
+	keep func(body string) bool
+	kept []*mangos.Message
 }
 
 func c2StartReceiver(w *W, name string, s mangos.Socket, idle time.Duration) *c2Recv {
@@ -38,7 +42,11 @@ func c2StartReceiver(w *W, name string, s mangos.Socket, idle time.Duration) *c2
 				id = m.Pipe.ID()
 			}
 			r.pipe = append(r.pipe, id)
-			m.Free()
+			if r.keep != nil && r.keep(string(m.Body)) {
+				r.kept = append(r.kept, m)
+			} else {
+				m.Free()
+			}
 			w.Delivery++
 		}
 	})
